@@ -256,6 +256,17 @@ def r3_mode_reset(ctx):
               "the state kept by the model after a fit still holds the last sampled population values, not the modes of the final parameters: derived quantities (velocities, mixing matrix, trajectories) "
               "disagree with the parameters that get saved")
     if resets:
+        # ... and nothing writes that state between the reset and the hand-over except the removal of data / individual values: a parameter
+        # rewritten afterwards (rounded, clipped ...) is no longer the one the population variables are the modes of
+        later = [n for n, st in cfg.stmt.items() if st is not None and any(cfg.reachable(r, n) and n != r for r in resets) and cfg.reachable(n, asg[0]) and n != asg[0]
+                 and (any(isinstance(t, ast.Subscript) and U(t.value) == var for t in (st.targets if isinstance(st, ast.Assign) else [st.target] if isinstance(st, ast.AugAssign) else []))
+                      or any(isinstance(c, ast.Call) and isinstance(c.func, ast.Attribute) and ((U(c.func.value) == var and c.func.attr in ("put", "__setitem__", "put_population_latent_variables"))
+                                                                                              or (c.func.attr in ("update_parameters", "load_parameters") and any(U(a) == var for a in list(c.args) + [k.value for k in c.keywords])))
+                             for c in header_walk(st)))
+                 and n not in resets]
+        ctx.check(not later, "C12.R3", f, cfg.stmt[later[0]] if later else cfg.stmt[resets[0]], "no parameter / population value rewritten after the mode reset",
+                  f"`{U(cfg.stmt[later[0]])[:70] if later else ''}` rewrites a value of the state after the population variables were put at the modes of the final parameters: what the model keeps "
+                  "(and computes trajectories from) no longer agrees with the parameters that get saved", construct="nothing rewritten after the mode reset")
         withs = [st for st in ast.walk(f.node) if isinstance(st, ast.With) and any(U(i.context_expr) == f"{var}.auto_fork(None)" for i in st.items)]
         inside = any(any(x is cfg.stmt[resets[0]] for b in w.body for x in ast.walk(b)) for w in withs)
         ctx.check(inside, "C12.R3", f, cfg.stmt[resets[0]], "inside auto_fork(None)", "mode reset outside auto_fork(None)", construct="mode reset under auto_fork(None)")
